@@ -251,7 +251,7 @@ def run_case(case):
         (hydrogens.HydrogenRoutines, "optimize_hydrogens", {"after": after_opt}),
         (hydrogens.HydrogenRoutines, "cleanup", {"after": after_cleanup}),
     ]
-    with pipeline.monitors(specs):
+    with pipeline.monitors(specs), s3.torsion_drive(case, info):
         r = pipeline.run(text, opts)
     if not r.ok:
         res["events"][f"run-failed:{r.exc[0]}"] = 1
